@@ -230,8 +230,9 @@ theorem cex_inherit_loop :
 `InFragment prog path` (Model/ScopeFragment.lean, decidable): the program is built from let layers
 (any number, around anything but a bare reference), `rec` and plain attribute sets, `inherit`
 clauses, references and literals — nested to ANY depth, the same name bound at any number of
-levels, reference chains and cycles included — and the path consists of keys. Excluded, each with
-its counterexample theorem above: `with` (`cex_with_let`, `cex_with_env_recursive`),
+levels, reference chains and cycles included — and the path consists of keys written without quotes
+(`keysBare`: a quoted key is read as a name token by the code and as a name by the SPEC, see
+`quoted_key_finds_bare_binding` below). Excluded, each with its counterexample theorem above: `with` (`cex_with_let`, `cex_with_env_recursive`),
 `inherit (s) x` (`cex_inherit_loop`), lambdas / calls / parentheses on the route
 (`cex_formals_leak`, `cex_routes_drop_scopes`), let layers on an identifier
 (`cex_let_on_identifier`), and inside the fragment the two side conditions
@@ -316,6 +317,51 @@ theorem shadowing_examples :
     (∀ n, implResolve (n + 9) wShadow [key "k", key "i", key "a"] = .bound 2 ∧
           specResolve (n + 9) wShadow [key "k", key "i", key "a"] = .bound 2) :=
   ⟨fun _ => ⟨rfl, rfl⟩, fun _ => ⟨rfl, rfl⟩, fun _ => ⟨rfl, rfl⟩, fun _ => ⟨rfl, rfl⟩⟩
+
+/-! ### Keys are name tokens: `doc["\"a\""]` and `doc["a"]` reach the same binding
+
+Since the repair f0e98da `AttributeSet.__getitem__` compares what the key and the binding's name token
+DENOTE (`_same_attr_name`, `sameName`; `findBindKey` in the model), no longer their spelling; the
+scan of `_resolve_identifier` over the scope chain (`Scope.get_binding`, `findBind`) still compares by
+spelling. The SPEC `specResolve` takes a key for the attribute's name as the set writes it
+(`keyInSet`), so a QUOTED key is no attribute of `{ a = …; }` there: on such a path the code reaches
+the binding Nix calls `a` and the two sides differ by the reading of the key, not by scoping. Quoted
+keys are therefore outside `InFragment` (`keysBare`); on bare keys and bare names the two comparisons
+coincide (`Scope.sameName_of_bare`, `Scope.findBindKey_eq_findBind`), which is what `resolve_partial`
+uses. -/
+
+/-- `let b = 1; in { a = b; }` -/
+def wBareBinding : Expr :=
+  .letE [.bind 10 (nm "b") (.lit 1)] (.set 20 false [.bind 21 (nm "a") (.ref 22 (nm "b"))])
+/-- `let b = 1; in { "a" = b; }` -/
+def wQuotedBinding : Expr :=
+  .letE [.bind 10 (nm "b") (.lit 1)] (.set 20 false [.bind 21 (nm "\"a\"") (.ref 22 (nm "b"))])
+
+/-- a quoted key finds the bare binding and a bare key the quoted binding (the code, both ways), where
+    the comparison by spelling finds nothing (the SPEC's reading of the key: no such attribute); the
+    quoted key is outside the fragment, the bare key on the bare binding inside -/
+theorem quoted_key_finds_bare_binding :
+    (∀ n, implResolve (n + 6) wBareBinding [key "\"a\""] = .bound 1) ∧
+    (∀ n, implResolve (n + 6) wBareBinding [key "a"] = .bound 1) ∧
+    (∀ n, implResolve (n + 6) wQuotedBinding [key "a"] = .bound 1) ∧
+    (∀ n, implResolve (n + 6) wQuotedBinding [key "\"a\""] = .bound 1) ∧
+    (∀ n, specResolve (n + 6) wBareBinding [key "\"a\""] = .nav .key) ∧
+    (∀ n, specResolve (n + 6) wBareBinding [key "a"] = .bound 1) ∧
+    agrees (.bound 1) (.nav .key) = false ∧
+    InFragment wBareBinding [key "\"a\""] = false ∧ InFragment wBareBinding [key "a"] = true ∧
+    InFragment wQuotedBinding [key "a"] = false :=
+  ⟨fun _ => rfl, fun _ => rfl, fun _ => rfl, fun _ => rfl, fun _ => rfl, fun _ => rfl,
+    by decide, by decide, by decide, by decide⟩
+
+/-- `doc["\"a\""]` on `{ a = 1; }` and `doc["a"]` on `{ "a" = 1; }` find the binding (its value is no
+    identifier: `notIdent`); a name that differs is still a `KeyError`. These two inputs are replayed on
+    the real code on every run (harness/props/c10.py `witnesses`). -/
+theorem quoted_key_on_literal :
+    (∀ n, implResolve (n + 3) (.set 1 false [.bind 2 (nm "a") (.lit 3)]) [key "\"a\""] = .nav .notIdent) ∧
+    (∀ n, implResolve (n + 3) (.set 1 false [.bind 2 (nm "\"a\"") (.lit 3)]) [key "a"] = .nav .notIdent) ∧
+    (∀ n, implResolve (n + 3) (.set 1 false [.bind 2 (nm "a") (.lit 3)]) [key "\"b\""] = .nav .key) ∧
+    (∀ n, specResolve (n + 3) (.set 1 false [.bind 2 (nm "a") (.lit 3)]) [key "\"a\""] = .nav .key) :=
+  ⟨fun _ => rfl, fun _ => rfl, fun _ => rfl, fun _ => rfl⟩
 
 /-- the exclusions are real: each witness of a `cex_*` theorem is outside the fragment -/
 theorem witnesses_outside_fragment :
